@@ -44,6 +44,8 @@ RENDERERS = {
     'difflib': (False, False, 'full'),
     'diff:path': (True, True, 'diff-only'),        # flags all on, git missing from PATH
     'difflib:path': (True, True, 'empty'),         # flags all on, neither git nor diff on PATH
+    'git:space': (True, True, 'space'),            # the tools installed in a directory whose name contains a space (C:\\Program Files\\Git\\cmd, ~/my tools/bin)
+    'diff:space': (False, True, 'space'),
 }
 HANG_SECONDS = 30
 ANSI = re.compile(r'\x1b\[[0-9;]*[A-Za-z]')
@@ -74,9 +76,10 @@ class _Env:
             git, diff = shutil.which('git', path=full), shutil.which('diff', path=full)
             if not git or not diff:
                 raise common.CheckerDefect('C16 needs real git and diff on PATH (git=%r diff=%r)' % (git, diff))
-            for kind, tools in (('diff-only', [diff]), ('empty', [])):
-                d = os.path.join(self.tmp, 'path-' + kind)
-                os.mkdir(d)
+            diff3 = shutil.which('diff3', path=full)
+            for kind, tools in (('diff-only', [diff]), ('empty', []), ('space', [t for t in (git, diff, diff3) if t])):
+                d = os.path.join(self.tmp, 'path-' + kind) if kind != 'space' else os.path.join(self.tmp, 'my tools', 'bin')
+                os.makedirs(d)
                 for t in tools:
                     os.symlink(t, os.path.join(d, os.path.basename(t)))
                 self.paths[kind] = d
@@ -187,7 +190,7 @@ def sample_configs(rnd, tier, index):
         rest = [s for s in ALL_SUBSETS if s and len(s) < 6]
         subsets = [frozenset(), frozenset(CATS)] + rnd.sample(rest, 6)
         # the diff / difflib renderers are selected by flag or by PATH, alternating with the input index
-        rends = ['git'] + (['diff', 'difflib:path'] if index % 2 == 0 else ['diff:path', 'difflib'])
+        rends = ['git'] + (['diff', 'difflib:path'] if index % 2 == 0 else ['diff:path', 'difflib']) + [['git:space'], ['diff:space'], []][index % 3]
     else:
         subsets = ALL_SUBSETS
         rends = list(RENDERERS)
